@@ -364,7 +364,8 @@ class ExprMixin(object):
             for items, s in acc:
                 if isinstance(e, ast.Starred):
                     for v, s2 in self.ev(e.value, s):
-                        nxt.append((items + self.iter_concrete(v, s2), s2))
+                        if isinstance(self.deref(v, s2), SeqV): nxt.append((items + [StarSeq(self.deref(v, s2))], s2))      # f(*list of symbolic length)
+                        else: nxt.append((items + self.iter_concrete(v, s2), s2))
                 else:
                     for v, s2 in self.ev(e, s):
                         nxt.append((items + [v], s2))
@@ -987,6 +988,10 @@ def odict_wf(d):
     return [z3.ForAll([x], z3.Contains(d.order, z3.Unit(x)) == z3.Select(d.has, x), patterns=[z3.Contains(d.order, z3.Unit(x)), z3.Select(d.has, x)]),
             z3.ForAll([i, j], z3.Implies(z3.And(0 <= i, i < j, j < z3.Length(d.order)), d.order[i] != d.order[j]))]
 
+class StarSeq(V):
+    """*xs in a call where xs has symbolic length: bound as a whole to the callee's variadic / list parameter"""
+    def __init__(self, seq): self.seq = seq
+
 class PyRegex(V):
     """a compiled regular expression with a literal pattern"""
     def __init__(self, pattern): self.pattern = pattern
@@ -1600,7 +1605,55 @@ class StmtMixin(object):
         return states
 
     def st_While(self, s, st):
-        raise Unsupported('while loop')
+        """while loop with an invariant over a ghost iteration counter _i<ordinal> (partial correctness: termination is not shown)"""
+        if s.orelse: raise Unsupported('while/else')
+        if id(s) not in self.loop_ids:
+            self.loop_ids[id(s)] = self.loop_counter; self.loop_counter += 1
+        ordinal = self.loop_ids[id(s)]
+        inv = self.contract.invariants.get(ordinal)
+        if inv is None: raise Unsupported('while loop #%d of %s has no invariant in the sidecar' % (ordinal, self.fname))
+        idx = '_i%d' % ordinal
+        carries = ('preserve/%d' % ordinal) in self.contract.carries or 'inv' in self.contract.carries
+        names = self.assigned_names(s.body)
+        cells = self.mutated_cells(s.body, st)
+        for nm in list(st.env):
+            v = st.env[nm]
+            if isinstance(v, Ref) and (v.id in cells or nm in names) and isinstance(st.cells[v.id], PyList):
+                pl = st.cells[v.id]; ty = self.loop_list_types.get(nm)
+                if ty is None and not pl.items: raise Unsupported('list %r mutated in loop #%d: declare its element type in contract.ghost' % (nm, ordinal))
+                if ty is None: ty = _ty_of_sort(unwrap(pl.items[0]).sort())
+                st.cells[v.id] = SeqV(z3.Empty(z3.SeqSort(ty.sort())) if not pl.items else z3.Concat(*[z3.Unit(self.elem_term(i_, ty, st)) for i_ in pl.items]) if len(pl.items) > 1 else z3.Unit(self.elem_term(pl.items[0], ty, st)), ty)
+        # 1. initiation (zero iterations done)
+        s0 = st.copy(); s0.env[idx] = Sc(z3.IntVal(0), 'int')
+        for g in inv(NS(self, s0), self.old_ns): self.obl('init/%d' % ordinal, s0, g, carries=carries)
+        outs = []
+        # 2. an arbitrary iteration: k iterations done, the invariant holds, the test is true
+        si = st.copy(); self.havoc(si, names, cells, '!it%d' % ordinal)
+        k = fresh(IntS, 'k%d' % ordinal); si.env[idx] = Sc(k, 'int'); si.pc.append(k >= 0)
+        reach = self.feasible(si)
+        si.pc += inv(NS(self, si), self.old_ns)
+        if not self.feasible(si, full=True):
+            if reach: self.vacuity.append('while loop #%d: the invariant contradicts the path condition of an arbitrary iteration (body not checked)' % ordinal)
+        else:
+            for c_, s1 in self.evs(s.test, si):
+                t = self.truth(c_, s1)
+                sb = s1.copy(); sb.pc.append(t); self.refine_optional(s.test, sb, True)
+                if not self.feasible(sb): continue
+                for o in self.block(s.body, sb):
+                    if o.kind in ('normal', 'continue'):
+                        sn = o.state; sn.env[idx] = Sc(k + 1, 'int')
+                        for g in inv(NS(self, sn), self.old_ns): self.obl('preserve/%d' % ordinal, sn, g, carries=carries)
+                    elif o.kind == 'break': outs.append(Outcome('normal', o.state))
+                    else: outs.append(o)
+        # 3. exit: some number of iterations done, the invariant holds, the test is false
+        sx = st.copy(); self.havoc(sx, names, cells, '!x%d' % ordinal)
+        kx = fresh(IntS, 'kx%d' % ordinal); sx.env[idx] = Sc(kx, 'int'); sx.pc.append(kx >= 0)
+        sx.pc += inv(NS(self, sx), self.old_ns)
+        for c_, s1 in self.evs(s.test, sx):
+            t = self.truth(c_, s1)
+            se = s1.copy(); se.pc.append(z3.Not(t)); self.refine_optional(s.test, se, False)
+            if self.feasible(se): outs.append(Outcome('normal', se))
+        return outs
 
 
 def _target_names(t):
@@ -1670,6 +1723,8 @@ class CallMixin(object):
         if isinstance(f, Rec):      # callable object with a known class
             return self.call_method(fref, '__call__', args, kw, st, node)
         if isinstance(f, ConstFactory): return [(f.result, st)]
+        if isinstance(f, Obj) and getattr(self.reg.classes.get(f.cls), 'external', False) and self.reg.get('<ext>', '%s.__call__' % f.cls) is not None:
+            return self.call_contract(self.reg.get('<ext>', '%s.__call__' % f.cls), None, [fref] + list(args), kw, st, node)      # a library callable object with an assumed contract
         if isinstance(f, Builtin): return self.call_builtin(f.name, args, kw, st, node)
         if isinstance(f, Opt): raise Unsupported('call of an optional value')
         if isinstance(f, FuncV): return self.call_function(f.fi, args, kw, st, node=node)
@@ -2129,7 +2184,8 @@ class CallMixin(object):
         env = {}
         if len(args) > len(names) and not a.vararg: raise Unsupported('too many positional arguments')
         for nm, v in zip(names, args): env[nm] = v
-        if a.vararg: env[a.vararg.arg] = Tup(args[len(names):])
+        rest = args[len(names):]
+        if a.vararg: env[a.vararg.arg] = rest[0].seq if (len(rest) == 1 and isinstance(rest[0], StarSeq)) else Tup(rest)
         for k, v in kw.items():
             if k not in names: raise Unsupported('unexpected keyword %s' % k)
             env[k] = v
@@ -2219,7 +2275,7 @@ class CallMixin(object):
             class _Q(object): pass
             fi = _Q(); fi.qualname = c.qualname; fi.file = c.file
             env = {}
-            for nm, v in zip(names, args): env[nm] = v
+            for nm, v in zip(names, args): env[nm] = v.seq if isinstance(v, StarSeq) else v      # f(*xs) for a contract whose parameter is that list
             for k_, v in kw.items(): env[k_] = v
             for nm in names:
                 if nm not in env:
@@ -2227,7 +2283,7 @@ class CallMixin(object):
                     else: raise Unsupported('missing argument %s of %s' % (nm, c.qualname))
             self.reg.assume('external contract assumed: %s (%s)' % (c.qualname, c.note or 'see contracts/ext_*.py'))
         else:
-            fnames = [a.arg for a in fi.node.args.args]
+            fnames = [a.arg for a in fi.node.args.args] + ([fi.node.args.vararg.arg] if fi.node.args.vararg else [])
             if names != fnames:
                 raise ContractMismatch('%s::%s parameters are %s but the contract declares %s' % (fi.file, fi.qualname, fnames, names))
             env = self.bind_params(fi.node, args, kw, st, st)
@@ -2524,7 +2580,7 @@ class Executor(Exec, ExprMixin, StmtMixin, CallMixin):
 
     def run(self):
         c, fi = self.contract, self.fi
-        fnames = [a.arg for a in fi.node.args.args]
+        fnames = [a.arg for a in fi.node.args.args] + ([fi.node.args.vararg.arg] if fi.node.args.vararg else [])
         if list(c.params) != fnames:
             raise ContractMismatch('%s::%s parameters are %s but the contract declares %s' % (fi.file, fi.qualname, fnames, list(c.params)))
         st = State()
